@@ -58,11 +58,11 @@ func (Prop) Describe() core.Description {
 // non-zero when y is): a lock-free implementation (crypto/rand, say) is legitimate and must
 // not trip the dead-probe guard.
 func quickProbes() []string {
-	return []string{"lock_contended if lock_acquired", "waiters_ge_2 if lock_acquired", "ids_ge_128_uniform", "long_lived_run", "crowd_run"}
+	return []string{"lock_contended if lock_held_across_yield", "waiters_ge_2 if lock_held_across_yield", "ids_ge_128_uniform", "long_lived_run", "crowd_run"}
 }
 
 func thoroughProbes() []string {
-	return []string{"holder_starved if lock_acquired", "all_other_tasks_blocked if lock_acquired", "preempt_in_rmw_fault if lock_acquired"}
+	return []string{"holder_starved if lock_held_across_yield", "all_other_tasks_blocked if lock_held_across_yield", "preempt_in_rmw_fault if lock_held_across_yield"}
 }
 
 // EnumSize implements core.Property: nothing is enumerated.
